@@ -10,8 +10,7 @@
 unsigned g_lts, g_lbs, g_lq, g_lek, g_lw;     /* type selector, referenced-type selector + qualifiers (pointers), expr kind, bit-field width */
 unsigned g_rts, g_rbs, g_rq, g_rek, g_rw;
 u64 g_lv, g_rv;                               /* value when EK_CONST */
-struct expr *g_l, *g_r;                       /* the operand objects */
-struct type *g_lt, *g_rt;                     /* their types before the call */
+/* g_l, g_r (the operand objects), g_lt, g_rt (their types before the call): expr_util.h */
 bool g_compat;                                /* == spec_bscompat(g_lbs, g_rbs): referenced types compatible (6.2.7) */
 int g_lkind, g_rkind;                         /* their kinds before the call */
 
@@ -93,35 +92,52 @@ int g_lkind, g_rkind;                         /* their kinds before the call */
 	X(IMP(g_rek == EK_CONST, g_r->u.constant.u == g_rv))
 
 /*
- * post-state observers: the operands of the returned node and (for pointer arithmetic) their operands, read once after
- * the call through NODE() (see expr_util.h).  x / xl / xr ... name positions in the returned tree.
+ * post-state observations (expr_util.h): x = the returned node, xl / xr its operands, xll .. xrr their operands
+ * (pointer arithmetic builds two levels)
  */
-struct expr *g_x, *g_xl, *g_xr, *g_xll, *g_xlr, *g_xrl, *g_xrr;
-#define OPND(p) ((p) == g_l ? g_l : (p) == g_r ? g_r : NODE(p))
+struct nodeobs g_ox, g_oxl, g_oxr, g_oxll, g_oxlr, g_oxrl, g_oxrr;
 
 static struct expr *
 mkb_observe(struct expr *e)
 {
-	g_x = e;
-	g_xl = g_xr = g_xll = g_xlr = g_xrl = g_xrr = 0;
-	if (e && e->kind == EXPRBINARY) {
-		g_xl = OPND(e->u.binary.l);
-		g_xr = OPND(e->u.binary.r);
-		if (g_xl && g_xl != g_l && g_xl != g_r && g_xl->kind == EXPRBINARY) {
-			g_xll = OPND(g_xl->u.binary.l);
-			g_xlr = OPND(g_xl->u.binary.r);
+	struct expr *n, *c;
+
+	observe(&g_ox, e);
+	observe(&g_oxl, 0); observe(&g_oxr, 0);
+	observe(&g_oxll, 0); observe(&g_oxlr, 0); observe(&g_oxrl, 0); observe(&g_oxrr, 0);
+	if (g_ox.who == W_NEW && g_ox.kind == EXPRBINARY) {
+		n = NODE(e);
+		observe(&g_oxl, n->u.binary.l);
+		observe(&g_oxr, n->u.binary.r);
+		if (g_oxl.who == W_NEW && g_oxl.kind == EXPRBINARY) {
+			c = NODE(n->u.binary.l);
+			observe(&g_oxll, c->u.binary.l);
+			observe(&g_oxlr, c->u.binary.r);
 		}
-		if (g_xr && g_xr != g_l && g_xr != g_r && g_xr->kind == EXPRBINARY) {
-			g_xrl = OPND(g_xr->u.binary.l);
-			g_xrr = OPND(g_xr->u.binary.r);
+		if (g_oxr.who == W_NEW && g_oxr.kind == EXPRBINARY) {
+			c = NODE(n->u.binary.r);
+			observe(&g_oxrl, c->u.binary.l);
+			observe(&g_oxrr, c->u.binary.r);
 		}
 	}
 	return e;
 }
 
-/* compile-time case split of the universe (keeps CBMC's points-to sets small); the two cases are exhaustive */
+/* o is operand W (W_L / W_R, whose type has selector origts) converted to the arithmetic type with code c: either the
+   operand itself, when its type already is that type, or a NEW conversion node (EXPRCAST) to that type over it */
+#define CONV(o, W, origts, c) \
+	(((o).who == (W) && TSIS(origts, c)) || \
+	 ((o).who == W_NEW && (o).kind == EXPRCAST && (o).base == (W) && TSIS((o).ts, c)))
+#define ISNEWCONST(o, v) ((o).who == W_NEW && (o).kind == EXPRCONST && (o).cval == (v))
+
+/* compile-time case split of the universe (keeps CBMC's points-to sets small); the cases of each operator are exhaustive:
+   U_ARITH + default, or U_ARITH + U_RPTR + U_RNOPTR */
 #ifdef U_ARITH
 #define U_CASE (g_lts <= BS_ENB && g_rts <= BS_ENB)          /* both operands arithmetic */
+#elif defined(U_RPTR)
+#define U_CASE (g_rts == TS_PTR)                             /* the right operand is a pointer */
+#elif defined(U_RNOPTR)
+#define U_CASE (g_rts != TS_PTR && !(g_lts <= BS_ENB && g_rts <= BS_ENB))
 #else
 #define U_CASE (!(g_lts <= BS_ENB && g_rts <= BS_ENB))       /* at least one operand is not arithmetic */
 #endif
@@ -150,6 +166,17 @@ mkb_build(const struct mkb_in *in, struct expr **pl, struct expr **pr)
 	__CPROVER_assume(in->lts <= BS_ENB && in->rts <= BS_ENB);
 	g_lt = ty_arithenum[in->lts];
 	g_rt = ty_arithenum[in->rts];
+#elif defined(U_RPTR)
+	/* variant "right operand is a pointer" */
+	__CPROVER_assume(in->rts == TS_PTR);
+	g_lt = optype(in->lts, &ty_pl, in->lbs, in->lq);
+	mk_ptr(&ty_pr, ty_base[in->rbs], in->rq);
+	g_rt = &ty_pr;
+#elif defined(U_RNOPTR)
+	/* variant "right operand is not a pointer (and not both are arithmetic)" */
+	__CPROVER_assume(in->rts != TS_PTR);
+	g_lt = optype(in->lts, &ty_pl, in->lbs, in->lq);
+	g_rt = in->rts < BS_N ? ty_base[in->rts] : &typenullptr;
 #else
 	g_lt = optype(in->lts, &ty_pl, in->lbs, in->lq);
 	g_rt = optype(in->rts, &ty_pr, in->rbs, in->rq);
@@ -166,6 +193,5 @@ mkb_build(const struct mkb_in *in, struct expr **pl, struct expr **pr)
 	g_l = *pl; g_r = *pr; g_lkind = g_l->kind; g_rkind = g_r->kind;
 }
 
-extern int g_no_error;
 
 #endif
